@@ -6,6 +6,17 @@ import vf
 PANIC = {"panic"}
 
 
+REPOTESTS_NOTE = ("executions of /repo's own test suite recorded by the guarded hooks (src/verif.rs): every precompilation and "
+                  "every top-level evaluation the tests perform, user closures as oracles")
+
+
+def repo_tests(chk, quick=False):
+    """code -> spec with the repository's own tests as the driver (hooks on); quick=False: thorough tier only."""
+    if chk.tier == "quick" and not quick:
+        return
+    chk.add_repo_tests("trace_repotests")
+
+
 def traces(chk, gen, check, quick=(4, 600), thorough=(16, 3000), note=None):
     """code -> spec: seeded random executions of the real crate validated against Trace_Api.tla."""
     count, n = quick if chk.tier == "quick" else thorough
@@ -53,6 +64,7 @@ def c13(chk):
     traces(chk, "fuzz", "trace_fuzz", quick=(4, 2000), thorough=(16, 20000),
            note="random strings of up to 40 characters over lexer-relevant fragments: the specification classifies each "
                 "(lexical error / not derivable / well-formed / unspecified) and the recorded precompilation outcome must agree")
+    repo_tests(chk)
 
 
 def c05(chk):
@@ -68,6 +80,7 @@ def c05(chk):
     traces(chk, "programs", "trace_programs",
            note="random programs with nested tuples / chains / assignments, random redundant parentheses and separators: "
                 "recorded tree, value, context and call log must be the specification's")
+    repo_tests(chk)
 
 
 def ast_model(chk, siblings, workers=12):
@@ -158,6 +171,7 @@ def c03(chk):
     traces(chk, "ops", "trace_ops", quick=(4, 2500), thorough=(16, 12000),
            note="random operand pairs: full-range i64 (recomputed on limbs by Int64.tla), random bit-pattern doubles from a "
                 "per-trace pool (primitives by primgen), strings, booleans, tuples")
+    repo_tests(chk)
 
 
 def c10(chk):
@@ -175,6 +189,7 @@ def c10(chk):
            note="random calls of the 49 builtins: full-range integers, random bit-pattern doubles from a per-trace pool, random "
                 "Unicode strings and byte indices, nested tuples; undocumented corners (NaN in min/max, shift amounts outside "
                 "0..63, empty-valued needles) are not generated")
+    repo_tests(chk)
 
 
 CTX_FLOATS = [[16368, 0, 0, 0], [16384, 0, 0, 0], [16376, 0, 0, 0], [16388, 0, 0, 0]]
@@ -212,6 +227,7 @@ def c04(chk):
     traces(chk, "histories", "trace_histories", quick=(4, 1500), thorough=(16, 8000),
            note="random histories of 200 operations over 12 names and two slots with full-range values; the abstract contexts "
                 "are carried along by Trace_Api.tla and every recorded projection must equal them")
+    repo_tests(chk)
 
 
 PROG_FLOATS = [[0, 0, 0, 0], [16368, 0, 0, 0], [16384, 0, 0, 0], [16392, 0, 0, 0], [16400, 0, 0, 0], [16404, 0, 0, 0],
@@ -239,6 +255,7 @@ def c08(chk):
     traces(chk, "programs", "trace_programs",
            note="random programs of up to ~30 atoms with assignments and recording user functions, evaluated on a context that "
                 "persists across programs: result, context and ordered call log must be the specification's")
+    repo_tests(chk, quick=True)
 
 
 def c11(chk):
@@ -261,6 +278,7 @@ def c12(chk):
     traces(chk, "programs", "trace_programs",
            note="random programs, each through a random one of the 48 entry points (string / tree level, eight result kinds, "
                 "fresh / shared / mutable context)")
+    repo_tests(chk)
 
 
 def c09(chk):
@@ -272,6 +290,7 @@ def c09(chk):
     info, summ = vf.run_model("resolve", "MC_Resolve.tla", {}, chk.outdir, env_extra={"PRIMS": prims})
     chk.add_model(info, summ, {"resolve", "panic"}, ["resolve_nontrivial"], note="MC_Resolve.tla: the complete configuration matrix")
     ctx_model(chk, "small", {"history", "panic"}, workers=12 if chk.tier == "quick" else 16)
+    repo_tests(chk)
 
 
 WORD_CHARS = [48, 49, 57, 97, 101, 69, 120, 102, 46, 95]
@@ -411,11 +430,12 @@ def c15(chk):
                               workers=12 if quick else 16, env_extra={"PRIMS": prims}, timeout=3000)
     chk.add_model(info, summ, {"panic"}, [], note="Conc.tla: every interleaving of the reader threads and the exclusive writer")
     for nthreads in ((2, 8) if quick else (2, 4, 8, 16)):
-        ev, rej = chk.add_traces(f"threads{nthreads}", "threads", 5000 if quick else 100000, 2 if quick else 4, "threads",
+        ev, rej = chk.add_traces(f"threads{nthreads}", "threads", 60000 if quick else 600000, 2 if quick else 4, "threads",
                                  extra_args=("--threads", str(nthreads)),
-                                 note=f"{nthreads} threads, each evaluating a seeded mix of 31 programs through all immutable entry points")
+                                 note=f"{nthreads} threads, each evaluating a seeded mix of ~50 programs (every family of builtins, the same "
+                                      "function on different arguments) through all immutable entry points")
         chk.nontrivial += ev
-    chk.samples.append({"kind": "threads", "case": "8 threads x 5000 evaluations of e.g. `f(x) * 2`, `x = 2` (ContextNotMutable), "
+    chk.samples.append({"kind": "threads", "case": "8 threads x 60000 evaluations of e.g. `f(x) * 2`, `x = 2` (ContextNotMutable), "
                         "`max(x, 3)` on one Arc<HashMapContext>; distinct (program, entry point, result) triples become eval events"})
 
 
